@@ -20,7 +20,7 @@ H1 == <<5, {}>>          H2 == <<6, {<<1, 2>>, <<3, 1>>}>>     \* 5: summary unl
 OV6 == << [names |-> {6}, b |-> <<1, 3>>] >>
 Cfg(g, gb, ov, nq, u, w) == [globals |-> g, gb |-> gb, ov |-> ov, nq |-> nq, unit |-> u, W |-> w]
 
-Seqential == Scope \in {"scalar", "hist", "mixed"}
+Sequential == Scope \in {"scalar", "hist", "mixed"}
 CK == CASE Scope = "scalar" -> {C1, C2} [] Scope = "mixed" -> {C2} [] Scope = "concinc" -> {C1} [] OTHER -> {}
 GK == CASE Scope = "scalar" -> {GA, GB} [] Scope = "mixed" -> {GB} [] OTHER -> {}
 HK == CASE Scope = "scalar" -> {} [] Scope = "mixed" -> {H2} [] Scope = "concinc" -> {H2} [] OTHER -> {H1, H2}
@@ -41,7 +41,7 @@ Cfgs ==
 MCInit ==
   /\ steps = 0 /\ cnt = [p \in Recorders \cup Drainers |-> 0]
   /\ \E c \in Cfgs :
-       IF Seqential THEN InitWith(c)
+       IF Sequential THEN InitWith(c)
        ELSE \E pre \in BOOLEAN :
          /\ cfg = c
          /\ ctr = [k \in CK |-> 0] /\ gau = EF /\ cinc = EF /\ cabs = EF
@@ -60,7 +60,7 @@ MCInit ==
          /\ upd = [d \in Drainers |-> FALSE] /\ pclean = FALSE /\ twiceOK = TRUE /\ faithful = TRUE
 
 \* ---- sequential histories
-SeqStep(A) == Seqential /\ steps < MaxOps /\ A /\ steps' = steps + 1 /\ UNCHANGED cnt
+SeqStep(A) == Sequential /\ steps < MaxOps /\ A /\ steps' = steps + 1 /\ UNCHANGED cnt
 MRegisterC == \E k \in CK : SeqStep(RegisterC(k))
 MRegisterG == \E k \in GK : SeqStep(RegisterG(k))
 MRegisterH == \E k \in HK : SeqStep(RegisterH(k))
@@ -81,21 +81,21 @@ Same == UNCHANGED <<steps, cnt>>
 \* (the sample value is a function of the recorder: fewer symmetric duplicates, bags still tell who recorded)
 VOf(p) == IF p = MinOf(Recorders) THEN 1 ELSE 3
 Lim(d) == IF DrOp(d) = "render" THEN DrainLimit ELSE UpLimit
-MRFix       == ~Seqential /\ \E p \in Recorders, k \in HK : cnt[p] < RecLimit /\ RFix(p, k, VOf(p)) /\ Began(p)
-MRClaimIn   == ~Seqential /\ \E p \in Recorders : RClaimIn(p) /\ Same
-MRClaimLost == ~Seqential /\ \E p \in Recorders : RClaimLost(p) /\ Same
-MIncC       == ~Seqential /\ \E p \in Recorders, k \in CK : cnt[p] < RecLimit /\ rpc[p] = "idle" /\ IncA(k, 1) /\ Began(p)
-MDBegin     == ~Seqential /\ \E d \in Drainers : cnt[d] < Lim(d) /\ DBegin(d, DrOp(d)) /\ Began(d)
-MDNull      == ~Seqential /\ \E d \in Drainers : DNull(d) /\ Same
-MDDetach    == ~Seqential /\ \E d \in Drainers, k \in HK : DDetach(d, k) /\ Same
-MDQok       == ~Seqential /\ \E d \in Drainers : DQok(d) /\ Same
-MDDeliver   == ~Seqential /\ \E d \in Drainers : DDeliver(d) /\ Same
-MDEnd       == ~Seqential /\ \E d \in Drainers : DEnd(d) /\ Same
+MRFix       == ~Sequential /\ \E p \in Recorders, k \in HK : cnt[p] < RecLimit /\ RFix(p, k, VOf(p)) /\ Began(p)
+MRClaimIn   == ~Sequential /\ \E p \in Recorders : RClaimIn(p) /\ Same
+MRClaimLost == ~Sequential /\ \E p \in Recorders : RClaimLost(p) /\ Same
+MIncC       == ~Sequential /\ \E p \in Recorders, k \in CK : cnt[p] < RecLimit /\ rpc[p] = "idle" /\ IncA(k, 1) /\ Began(p)
+MDBegin     == ~Sequential /\ \E d \in Drainers : cnt[d] < Lim(d) /\ DBegin(d, DrOp(d)) /\ Began(d)
+MDNull      == ~Sequential /\ \E d \in Drainers : DNull(d) /\ Same
+MDDetach    == ~Sequential /\ \E d \in Drainers, k \in HK : DDetach(d, k) /\ Same
+MDQok       == ~Sequential /\ \E d \in Drainers : DQok(d) /\ Same
+MDDeliver   == ~Sequential /\ \E d \in Drainers : DDeliver(d) /\ Same
+MDEnd       == ~Sequential /\ \E d \in Drainers : DEnd(d) /\ Same
 
 MCNext == \/ MRegisterC \/ MRegisterG \/ MRegisterH \/ MInc \/ MAbs \/ MSet \/ MIncG \/ MDecG \/ MRecord \/ MDescribe \/ MUpkeep \/ MRender
           \/ MRFix \/ MRClaimIn \/ MRClaimLost \/ MIncC \/ MDBegin \/ MDNull \/ MDDetach \/ MDQok \/ MDDeliver \/ MDEnd
 MCSpec == MCInit /\ [][MCNext]_mvars
 
 \* at the end of a concurrent run (everything finished) a last render is complete
-AllDone == ~Seqential /\ Quiet /\ \A p \in Recorders \cup Drainers : cnt[p] = (IF p \in Recorders THEN RecLimit ELSE Lim(p))
+AllDone == ~Sequential /\ Quiet /\ \A p \in Recorders \cup Drainers : cnt[p] = (IF p \in Recorders THEN RecLimit ELSE Lim(p))
 =============================================================================
